@@ -34,6 +34,18 @@ func (w *World) guardUp(fn *ssa.Function, point *ssa.BasicBlock, val ssa.Value, 
 			}
 		}
 	}
+	// a module accessor that does nothing but return GetAccount(its parameter) is the same read
+	for _, s := range cg.Sites[fn] {
+		h := s.Static
+		if h == nil || s.Invoke || h.Blocks == nil || !w.isProdFunc(h) {
+			continue
+		}
+		if pi := w.authGetWrapperParam(h); pi >= 0 && pi < len(s.Common().Args) && sameValue(s.Common().Args[pi], val) {
+			if c := siteValue(s); c != nil {
+				gets = append(gets, c)
+			}
+		}
+	}
 	set := map[ssa.Value]bool{}
 	for _, g := range gets {
 		set[g] = true
@@ -366,4 +378,43 @@ func c09self(w *World, r *Report, s *Site, gets []*ssa.Call, tr *Tracer) {
 			r.Check(ok, "C09.self", construct, pos, fmt.Sprintf("owner parsed from %v; GetSigners parses %v", fromFields, signers), fmt.Sprintf("the account that is modified is parsed from %v, the signer from %v", fromFields, signers))
 		}
 	}
+}
+
+// authGetWrapperParam: h returns, on its only return, the result of accountKeeper.GetAccount(ctx, p) for one of its own
+// parameters p and has no other effect; returns p's index in h.Params (-1 otherwise).
+func (w *World) authGetWrapperParam(h *ssa.Function) int {
+	rets := Returns(h)
+	if len(rets) != 1 {
+		return -1
+	}
+	rv := retVals(rets[0])
+	if len(rv) != 1 {
+		return -1
+	}
+	c, ok := rv[0].(*ssa.Call)
+	if !ok {
+		return -1
+	}
+	cg := w.CG()
+	for _, s := range cg.Sites[h] {
+		if a := cg.Atom(s); a != "" && a != AuthGet {
+			return -1
+		}
+		if s.Instr != ssa.CallInstruction(c) {
+			continue
+		}
+		if cg.Atom(s) != AuthGet || s.Method != "GetAccount" {
+			return -1
+		}
+		args := s.Args()
+		if len(args) == 0 {
+			return -1
+		}
+		for i, p := range h.Params {
+			if args[len(args)-1] == ssa.Value(p) {
+				return i
+			}
+		}
+	}
+	return -1
 }
